@@ -87,7 +87,7 @@ def infer_redirection(url, recursive=True):
                         return url
 
                 # Idiotic youtube redirections
-                elif "youtube.com/redirect?" in url:
+                elif "youtube.com/redirect?" in url.lower():
                     target = "https://" + potential_target
 
         # NOTE: a target embedded in the url is always shorter than the url.
